@@ -6,6 +6,7 @@ import (
 	"encoding/json"
 	"fmt"
 	"hash/fnv"
+	"math/rand"
 	"os"
 	"path/filepath"
 	"regexp"
@@ -15,6 +16,7 @@ import (
 	"sync"
 	"sync/atomic"
 	"time"
+	"verifh/choice"
 )
 
 // Violation is one recorded violation class (deduplicated by fingerprint).
@@ -32,11 +34,11 @@ type Violation struct {
 
 // Known is an entry of KNOWN_FINDINGS.jsonl.
 type Known struct {
-	Status      string `json:"status"` // known | fixed
-	Property    string `json:"property"`
-	Fingerprint string `json:"fingerprint,omitempty"` // regular expression matched against the whole fingerprint
-	What        string `json:"what"`
-	Commit      string `json:"commit,omitempty"`
+	Status      string          `json:"status"` // known | fixed
+	Property    string          `json:"property"`
+	Fingerprint string          `json:"fingerprint,omitempty"` // regular expression matched against the whole fingerprint
+	What        string          `json:"what"`
+	Commit      string          `json:"commit,omitempty"`
 	Witness     json.RawMessage `json:"witness,omitempty"`
 	re          *regexp.Regexp
 }
@@ -169,8 +171,12 @@ func (c *Ctx) Inconclusive(s string) {
 	c.mu.Unlock()
 }
 
-func (c *Ctx) Assume(s string)      { c.assume = append(c.assume, s) }
-func (c *Ctx) Exhaustive(s string)  { c.mu.Lock(); c.exhaustive = append(c.exhaustive, s); c.mu.Unlock() }
+func (c *Ctx) Assume(s string) { c.assume = append(c.assume, s) }
+func (c *Ctx) Exhaustive(s string) {
+	c.mu.Lock()
+	c.exhaustive = append(c.exhaustive, s)
+	c.mu.Unlock()
+}
 
 var digitsRe = regexp.MustCompile(`[0-9]+`)
 var hexRe = regexp.MustCompile(`0x[0-9A-Fa-f]+`)
@@ -322,14 +328,14 @@ func (c *Ctx) Finish() int {
 		feat[k] = v
 	}
 	cov := map[string]interface{}{
-		"evaluations":         c.evals,
-		"distinct_nontrivial": len(c.distinct),
-		"rule":                c.Rule,
-		"samples":             c.samples,
-		"feature_histogram":   feat,
+		"evaluations":          c.evals,
+		"distinct_nontrivial":  len(c.distinct),
+		"rule":                 c.Rule,
+		"samples":              c.samples,
+		"feature_histogram":    feat,
 		"monitor_observations": c.obs,
 		"exhaustive_subspaces": c.exhaustive,
-		"exhaustive":          false,
+		"exhaustive":           false,
 	}
 	ev := map[string]interface{}{
 		"property_id":    c.ID,
@@ -370,3 +376,7 @@ type Monitor struct {
 var Monitors = map[string]*Monitor{}
 
 func Register(m *Monitor) { Monitors[m.ID] = m }
+
+func newChoice(seed int64, p float64) *choice.C {
+	return choice.New(rand.New(rand.NewSource(seed)), p)
+}
